@@ -668,6 +668,7 @@ def execute(rec: dict, res: RunResult) -> None:
 class C12(Engine):
     prop = "C12"
     level = "exploration"
+    fresh_candidates = True
     rule = ("seeded histories of 2-16 API calls (construct by preset name / module dict / shared user dict, parse/render/"
             "parseInline/renderInline with env omitted, fresh or shared, enable/disable, options by 3 routes, set, "
             "configure, add_render_rule, use(plugin), one instance's options object handed to another, the caller scribbling "
